@@ -43,12 +43,12 @@ Qed.
 Lemma rw2_accepted : trace_ok rw_cfg 0 (model_trace rw_cfg 0 rw_evs2) = true.
 Proof. vm_compute. reflexivity. Qed.
 
-(* ---- a model trace that position 15 (e_early) rejects -----------------------------------------------------------------------------------------------------
+(* ---- regression for position 15 (e_early): deduplication changes the operation set of an assigned task ----------------------------------
    Retry count 1, one size class.  A worker is told to run a task (m_reissue[w] = ([0], 0)); a second Execute of the same
    digest attaches operation 1 to the task in flight; the worker asks again: the model counts t_retry = 1 and tells it
-   again, the monitor sees the operation set [0;1] differ from [0] and restarts at 0; the worker asks a third time: the
-   model has reached the limit and fails the task with INTERNAL, the monitor reads m_reissue[w] = ([0;1], 0) with
-   0 <> 1 and reports "C06:task-failed-before-retry-limit".  Every other position accepts the trace. *)
+   again; the worker asks a third time: the model has reached the limit and fails the task with INTERNAL.  An earlier
+   retry_fold recognised the task by same_set of its operation list, restarted at 0 when the list became [0;1], and e_early
+   then read 0 <> 1 ("C06:task-failed-before-retry-limit"); p_step now uses shares_op (a shared operation id) and accepts. *)
 Definition rw3_cfg : config := mkConfig 5 10 30 10 60 1 20.
 Definition rw3_evs : list (event * list (nat * wref)) :=
   [ (ERegister 0 (mkPK [] 0) [] 0 0 [1%N] 1, []);
@@ -67,7 +67,5 @@ Lemma rw3_outputs : snd (run (init rw3_cfg 0) rw3_evs) =
   [[ORet 0 0]; []; [OGhost GSelect; OMsg 2 0 3 None]; [OSync 1 (DExec 5 false 100 3 []) 14];
    [OGhost GSelAbandoned; OMsg 3 1 3 None]; [OSync 4 (DExec 5 false 100 3 []) 16]; [OGhost (GAbandoned 1)]].
 Proof. vm_compute. reflexivity. Qed.
-Lemma rw3_rejected : trace_ok rw3_cfg 0 (model_trace rw3_cfg 0 rw3_evs) = false /\ trace_sub [15%nat] rw3_cfg 0 (model_trace rw3_cfg 0 rw3_evs) = false.
-Proof. split; vm_compute; reflexivity. Qed.
-Lemma rw3_others_accept : trace_sub [0;1;2;3;4;5;6;7;8;9;10;11;12;13;14;16;17;18]%nat rw3_cfg 0 (model_trace rw3_cfg 0 rw3_evs) = true.
+Lemma rw3_accepted : trace_ok rw3_cfg 0 (model_trace rw3_cfg 0 rw3_evs) = true.
 Proof. vm_compute. reflexivity. Qed.
